@@ -65,6 +65,10 @@ impl Admin {
         ensures r is Ok ==> r->Ok_0 == (deps.storage.view().admin == Some(*caller)),
     { unimplemented!() }
     #[verifier::external_body]
+    pub fn get(&self, deps: Deps) -> (r: StdResult<Option<Addr>>)
+        ensures r is Ok, r->Ok_0 == deps.storage.view().admin,
+    { unimplemented!() }
+    #[verifier::external_body]
     pub fn set(&self, deps: DepsMut, admin: Option<Addr>) -> (r: StdResult<()>)
         ensures
             r is Ok ==> final(deps.storage).view() == (Store { admin: admin, ..old(deps.storage).view() }),
